@@ -879,3 +879,40 @@ func verifSetPatchNonArray(n JsonNode, e DiffElement) bool {
 	_, err := verifCloneNode(n).Patch(Diff{e})
 	return err != nil
 }
+
+// verifKeyedMember (C08): a hunk addressed through a keyed set member ({"a":v},"b") is applied
+// strictly inside the matching object, and a failure there fails the whole patch.
+// Result: 0 as specified; 1 the nested hunk does not match but no error is reported;
+// 2 a matching nested hunk is rejected; 3 wrong result.
+func verifKeyedMember(member jsonObject, old, new JsonNode) int {
+	key, ok := member["a"]
+	if !ok {
+		return 0
+	}
+	switch key.(type) {
+	case jsonArray, jsonObject:
+		return 0
+	}
+	target := jsonArray{verifCloneNode(member)}
+	e := DiffElement{Path: Path{PathSetKeys{"a": key}, PathKey("b")}, Remove: nodeList(old), Add: nodeList(new)}
+	r, err := target.Patch(Diff{e})
+	if !specEq(specChild(member, "b"), specSingle(e.Remove), nil) {
+		if err == nil {
+			return 1
+		}
+		return 0
+	}
+	if err != nil {
+		return 2
+	}
+	want := verifCloneNode(member).(jsonObject)
+	if len(e.Add) == 0 {
+		delete(want, "b")
+	} else {
+		want["b"] = new
+	}
+	if !r.Equals(jsonArray{want}, SET) {
+		return 3
+	}
+	return 0
+}
